@@ -41,6 +41,7 @@ type Engine struct {
 	funcConsts   map[string]string
 	abort        bool
 	known        []KnownFinding
+	mode         string
 }
 
 type KnownFinding struct {
@@ -93,6 +94,7 @@ type Frame struct {
 	top      bool
 	loops    *loopInfo
 	variants map[int]*Val
+	loopPre  map[int]map[string]string // per loop: heap terms at loop entry (before havoc)
 }
 
 func (f *Frame) clone() *Frame {
@@ -102,6 +104,7 @@ func (f *Frame) clone() *Frame {
 	}
 	n.defers = append([]*deferred(nil), f.defers...)
 	n.active = map[*ssa.BasicBlock]bool{}
+	n.loopPre = f.loopPre
 	if f.variants != nil {
 		n.variants = map[int]*Val{}
 		for k, v := range f.variants {
@@ -321,7 +324,46 @@ func (e *Engine) load(st *State, p *Val, elem types.Type) (*Val, error) {
 		v.T = n
 	}
 	st.assume(e.wfVal(st, v.T, v.S))
+	if p.Addr != nil && p.Addr.Kind == "field" {
+		v.From = p.Addr
+	}
 	return v, nil
+}
+
+// guardCheck emits lock-discipline obligations for accesses to a guarded map/slice field.
+func (e *Engine) guardCheck(fr *Frame, st *State, v *Val, write bool, pos token.Pos) {
+	if v.From == nil || len(e.specs.Guards) == 0 {
+		return
+	}
+	for _, g := range e.specs.Guards {
+		ss, ok := e.reg.byType[g.Struct]
+		if !ok {
+			continue
+		}
+		info := e.reg.structs[ss]
+		fi, mi := -1, -1
+		for i, f := range info.Fields {
+			if f == g.Field {
+				fi = i
+			}
+			if f == g.Mutex {
+				mi = i
+			}
+		}
+		if fi < 0 || mi < 0 || v.From.Key != e.keyField(ss, fi) {
+			continue
+		}
+		mu := fmt.Sprintf("(fieldref %s %d)", v.From.Base, mi)
+		wl := sel(e.ghostGet(st, st.ghost, "wl"), mu)
+		rl := sel(e.ghostGet(st, st.ghost, "rl"), mu)
+		goal := wl
+		what := "write to " + g.Field + " with " + g.Mutex + " held exclusively"
+		if !write {
+			goal = or(wl, "(> "+rl+" 0)")
+			what = "read of " + g.Field + " with " + g.Mutex + " held"
+		}
+		e.addObligation(st, fr, "guarded-by", g.Tags, what, e.posStr(pos), goal, nil)
+	}
 }
 
 func (e *Engine) store(st *State, p *Val, elem types.Type, v *Val) error {
@@ -766,6 +808,7 @@ func (e *Engine) simpleInstr(fr *Frame, st *State, instr ssa.Instruction) (*Val,
 		}
 		mt := in.X.Type().Underlying().(*types.Map)
 		ks, vs := e.reg.sortOf(mt.Key()), e.reg.sortOf(mt.Elem())
+		e.guardCheck(fr, st, x, false, in.Pos())
 		pres := sel(sel(e.heapGet(st, st.heap, e.keyMapP(ks, vs)), x.T), k.T)
 		// a nil map has no entries
 		pres = st.defineAlways("present", sBool, and(not(eq(x.T, "0")), pres))
@@ -783,6 +826,7 @@ func (e *Engine) simpleInstr(fr *Frame, st *State, instr ssa.Instruction) (*Val,
 		k := e.operand(fr, st, in.Key)
 		v := e.operand(fr, st, in.Value)
 		e.safety(fr, st, "assignment to entry in nil map", not(eq(m.T, "0")), in.Pos())
+		e.guardCheck(fr, st, m, true, in.Pos())
 		mt := in.Map.Type().Underlying().(*types.Map)
 		ks, vs := e.reg.sortOf(mt.Key()), e.reg.sortOf(mt.Elem())
 		kp, kv := e.keyMapP(ks, vs), e.keyMapV(ks, vs)
@@ -991,6 +1035,7 @@ func (e *Engine) execBlock(fr *Frame, st *State, b *ssa.BasicBlock, k retK) {
 			// arrived through a back edge: invariant preserved + variant decreased
 			e.checkLoopInvariants(fr, st, b, ord, "invariant-preserved")
 			e.checkDecreases(fr, st, b, ord)
+			e.loopFrame(fr, st, e.contractFor(fr.fn), ord, nil, false)
 			return
 		}
 		c := e.contractFor(fr.fn)
@@ -1007,7 +1052,9 @@ func (e *Engine) execBlock(fr *Frame, st *State, b *ssa.BasicBlock, k retK) {
 			st.assume(e.wfVal(st, nv.T, so))
 			fr.env[phi] = nv
 		}
+		pre := copyMap(st.heap)
 		e.havocLoop(fr, st, b, c, ord)
+		e.loopFrame(fr, st, c, ord, pre, true)
 		fr.active[b] = true
 		e.recordVariant(fr, st, b, ord)
 		e.assumeLoopInvariants(fr, st, b, ord)
